@@ -20,7 +20,7 @@ COMPONENTS = {
 R_STEPS = [('get', 2), ('attr', 6), ('tick', 1), ('item_attr', 3), ('sel', 2), ('sel_items', 2), ('sel_one', 1),
            ('load', 1), ('prefetch', 1), ('items_iter', 3), ('items_len', 2), ('items_count', 1), ('items_empty', 1),
            ('items_in', 1), ('tags_iter', 2), ('tags_len', 1), ('nav', 2), ('card', 2), ('card_acct', 2), ('own_write', 2), ('flush', 1), ('commit', 1),
-           ('lock_get', 2), ('lock_sel', 1)]
+           ('lock_get', 2), ('lock_sel', 1), ('prefetch_tags', 1)]
 W_STEPS = [('upd', 5), ('relink', 2), ('upd_item', 2), ('move', 3), ('del_item', 1), ('new_item', 1), ('tag_add', 1), ('tag_remove', 2)]
 
 
@@ -37,6 +37,7 @@ def gen_case(seed, i, tier, with_faults=False):
         return hot if r.chance(0.7) else r.below(3)
 
     threads = {}
+    w_steps = W_STEPS
     rprog = []
     for s in range(r.randint(1, 2)):
         steps = []
@@ -89,6 +90,18 @@ def gen_case(seed, i, tier, with_faults=False):
             for _ in range(r.randint(1, 3)):
                 steps.append([r.choice(['sel', 'sel_one', 'load', 'get', 'prefetch', 'attr', 'items_iter', 'commit']), hot, wa])
             steps.append(['attr', hot, wa])
+        elif r.chance(0.15):
+            # empty-collection form: the tags of the item that has none are read (fully loaded, empty), the tags of
+            # other items are loaded afterwards (a batch load: which collections does it ask for again?), the
+            # first item's tags are read again; the writers mostly add tags to that item
+            hot_item = 5
+            w_steps = [('tag_add', 6), ('tag_remove', 1), ('upd_item', 1), ('upd', 1)]
+            steps = [[r.choice(['tags_iter', 'tags_len']), 5, 0]]
+            for _ in range(r.randint(1, 3)):
+                steps.append([r.choice(['tags_iter', 'tags_iter', 'tags_len', 'item_attr', 'sel_items', 'prefetch_tags']), r.below(5), r.below(3)])
+            steps.append(['tags_iter', 5, 0])
+            if r.chance(0.5):
+                steps += [['tags_iter', r.below(5), 0], ['tags_len', 5, 0]]
         kind = r.weighted([('opt', 8), ('nonopt', 1), ('serializable', 1)])
         rprog.append({'role': 'reader', 'kind': kind, 'steps': steps})
     threads['T0'] = rprog
@@ -97,7 +110,7 @@ def gen_case(seed, i, tier, with_faults=False):
         for s in range(r.randint(1, 3)):
             steps = []
             for _ in range(r.randint(1, 2)):
-                op = r.weighted(W_STEPS)
+                op = r.weighted(w_steps)
                 item = op in ('upd_item', 'move', 'del_item', 'tag_add', 'tag_remove')
                 b = r.below(10)
                 if op == 'upd' and r.chance(0.6):
